@@ -60,6 +60,14 @@ fn load_rom(rom_file_name: String) -> Option<emulator::Core> {
     return None;
   }
 
+  // The ROM is mapped with the size its header declares; a shorter file would
+  // fault on the first access beyond its end.
+  let file_length = rom_file.metadata().map(|meta| meta.len()).unwrap_or(0);
+  if file_length < header.get_rom_size_bytes() as u64 {
+    println!("ROM file is corrupt: it is smaller than the ROM size declared in its header");
+    return None;
+  }
+
   println!("Loading \"{}\"", header.get_title());
 
   Some(emulator::Core::from_rom_file(&mut rom_file, header))
